@@ -24,6 +24,7 @@ import YashModel.Proc.ForkLemmas
 import YashModel.Proc.Flow2
 import YashModel.Proc.Flow3
 import YashModel.Proc.Order
+import YashModel.Proc.TrapLemmas
 import YashModel.Proc.Spec
 namespace YashModel.Proc
 
@@ -1358,5 +1359,143 @@ example :
     Spec.raceFree3 PCfg.real.cap PCfg.real.chunk 512 (.take 512 0) = true ∧
     Spec.raceFree3 PCfg.real.cap PCfg.real.chunk 3000 (.take 10 0) = false := by
   decide
+
+
+section WaitTrap
+open YashModel.Generated.ProcConsts (SIGNAL_EXIT_OFFSET)
+
+/-! ## Wave 3: `wait` interrupted by a trapped signal (`WaitTrap.lean`) -/
+
+/-- The invariant of the `wait`-for-one-job system (the `Inv` of the parent/children system on its `sys` part, every
+    pending signal has a trap action, `out` is set exactly when the built-in has ended, a `finished` result is the
+    job's logged state, a `trapped` result names a signal with a trap action) holds when the built-in starts between
+    two commands of any shell state satisfying `Inv`, and is preserved by every step of the shell, of a child and
+    of a sender. -/
+theorem wait_trap_inv_inductive :
+    (∀ s j traps senders, Inv s → s.pc = .done → TInv (TSys.start s j traps senders)) ∧
+    (∀ t l t', TInv t → tstep t l = some t' → TInv t') :=
+  ⟨fun _ j traps senders h hpc => tinv_start h hpc j traps senders, fun _ l _ h hs => tinv_step l h hs⟩
+
+/-- ★ The trap wins (XCU 2.12: "the reception of a signal for which a trap has been set shall cause the wait
+    utility to return immediately with an exit status >128").  Whenever the shell is blocked in
+    `wait_for_signals` and a signal with a trap action is pending (`σ` = the first such in delivery order):
+    (1) the shell can move at once and that step ends the built-in with `Trapped(σ)`;
+    (2) WHATEVER happens before the shell is scheduled — children running on, the awaited job exiting (SIGCHLD
+    becoming pending too), further signals arriving, in any number and order — every run that ends the built-in
+    ends it with `Trapped(σ)`, without any child's state having been handed out (the job is still waitable), and
+    `σ` has a trap action.  (A `wait_for_any_job_or_trap` that looks at SIGCHLD first breaks (1) and (2).) -/
+theorem trap_interrupts_wait {t : TSys} {σ : Nat} (hout : t.out = none) (hpc : t.sys.pc = .await)
+    (hσ : firstTrapped t.traps t.sigPending = some σ) :
+    (∃ t', tstep t .parent = some t' ∧ t'.out = some (.trapped σ)) ∧
+    (∀ u o, TSteps t u → u.out = some o → o = .trapped σ ∧ u.sys.log = t.sys.log ∧ σ ∈ t.traps) := by
+  have harm : Armed t σ t.sys.log ∨ Fired t σ t.sys.log := Or.inl ⟨hout, hpc, hσ, rfl⟩
+  constructor
+  · have hne : t.sigPending.isEmpty = false := by
+      have := (firstTrapped_mem hσ).2
+      cases hsp : t.sigPending with
+      | nil => simp [hsp] at this
+      | cons a b => rfl
+    refine ⟨_, by simp only [tstep, tparentStep, hout, hpc, hne, hσ]; simp; rfl, rfl⟩
+  · intro u o hsteps ho
+    rcases armed_steps hsteps harm with ⟨h1, _⟩ | ⟨h1, h2⟩
+    · rw [h1] at ho; simp at ho
+    · rw [h1] at ho; simp at ho
+      exact ⟨ho.symm, h2, (firstTrapped_mem hσ).1⟩
+
+example :
+    let t : TSys := { sys := { children := [{ state := .halted (.exited 3), changed := true }], disp := .catch,
+                               pending := true, pc := .await },
+                      job := 0, traps := [6], sigPending := [6] }
+    t.out = none ∧ t.sys.pc = .await ∧ firstTrapped t.traps t.sigPending = some 6 ∧
+      ((tstep t .parent).map (·.out)) = some (some (.trapped 6)) := by
+  decide
+
+/-- ★ Progress of the built-in under every schedule: every step of the shell, of a child, of a sender strictly
+    decreases `tmeasure` (no infinite run, no fairness assumption), and in every invariant state in which the
+    built-in has not ended some process can move (no deadlock: a blocked shell has a live child that can step or
+    send, or something pending that wakes it).  Hence every maximal run ends the built-in. -/
+theorem wait_trap_progress :
+    (∀ t l t', tstep t l = some t' → tmeasure t' < tmeasure t) ∧
+    (∀ t, TInv t → t.out = none → ∃ l t', tstep t l = some t') :=
+  ⟨fun _ l _ hs => tmeasure_step l hs, fun _ h ho => tnot_stuck h ho⟩
+
+/-- ★ What the built-in reports is true, under every schedule: started between two commands of a shell state
+    satisfying `Inv`, in every reachable state — `finished i r`: `i` is the awaited job, `r` is the final state the
+    child really ended with, handed out by `wait` exactly once (the child is reaped); `trapped σ`: `σ` has a trap
+    action; and as long as the built-in runs the awaited job has no recorded final state. -/
+theorem wait_trap_result_sound {s : Sys} {j : Nat} {traps : List Nat} {senders : List (Nat × Nat)} {u : TSys}
+    (h : Inv s) (hpc : s.pc = .done) (hu : TSteps (TSys.start s j traps senders) u) :
+    (∀ i r, u.out = some (.finished i r) →
+        i = j ∧ (∃ c, u.sys.children[i]? = some c ∧ c.state = .halted r) ∧ logCount u.sys.log i = 1 ∧
+        reaped u.sys.children i = true) ∧
+    (∀ σ, u.out = some (.trapped σ) → σ ∈ traps) ∧
+    (u.out = none → jobDone u.sys.log j = none) := by
+  have hT := tinv_steps hu (tinv_start h hpc j traps senders)
+  have hjob : ∀ {a b : TSys}, TSteps a b → b.job = a.job ∧ b.traps = a.traps := by
+    intro a b hab
+    induction hab with
+    | refl => exact ⟨rfl, rfl⟩
+    | tail l _ hs ih =>
+      have := tstep_frame l hs
+      exact ⟨this.1.trans ih.1, this.2.trans ih.2⟩
+  have h0 : (TSys.start s j traps senders).job = j ∧ (TSys.start s j traps senders).traps = traps := by
+    unfold TSys.start; split <;> exact ⟨rfl, rfl⟩
+  obtain ⟨hj, htr⟩ := hjob hu
+  rw [h0.1] at hj; rw [h0.2] at htr
+  refine ⟨?_, ?_, ?_⟩
+  · intro i r ho
+    obtain ⟨h1, h2⟩ := hT.fin_ok i r ho
+    obtain ⟨c, hc, hst⟩ := hT.inv.logged i r h2
+    have hcount := hT.inv.once i
+    have hpos : 0 < logCount u.sys.log i := by
+      unfold logCount
+      exact List.countP_pos_iff.mpr ⟨(i, r), h2, by simp⟩
+    have hre : reaped u.sys.children i = true := by
+      by_cases hr : reaped u.sys.children i = true
+      · exact hr
+      · simp [hr] at hcount; omega
+    refine ⟨h1.trans hj, ⟨c, hc, hst⟩, by simpa [hre] using hcount, hre⟩
+  · intro σ ho; rw [← htr]; exact hT.trap_ok σ ho
+  · intro ho; rw [← hj]; exact hT.job_open ho
+
+/-- ★ No result depends on which process runs first: the awaited job sends the trapped signal `σ` to the shell
+    and then exits (`trap … SIG; ( kill -s SIG $$; …; exit N ) & wait $!`).  From the state in which the shell is
+    blocked in `wait` for that job, the job being the only live child and still having to send, EVERY run — the
+    job's exit and its SIGCHLD may come before or after the shell is scheduled again — that ends the built-in ends
+    it with `Trapped(σ)` and hands out no child's state: the exit status of `wait` is `Spec.waitInterrupted σ` under
+    every schedule, and the job is still there for the next `wait`.  (With "SIGCHLD first" the same runs give the
+    job's status or `Trapped(σ)` depending on the schedule.) -/
+theorem sole_job_signal_then_exit_is_trapped {t u : TSys} {σ : Nat} {o : TrapOut} (h : Sole t σ)
+    (hu : TSteps t u) (ho : u.out = some o) :
+    o = .trapped σ ∧ u.sys.log = t.sys.log ∧ σ + SIGNAL_EXIT_OFFSET = Spec.waitInterrupted σ ∧
+      128 < Spec.waitInterrupted σ := by
+  have hs : σ + SIGNAL_EXIT_OFFSET = Spec.waitInterrupted σ ∧ 128 < Spec.waitInterrupted σ := by
+    simp only [Spec.waitInterrupted, SIGNAL_EXIT_OFFSET]; omega
+  rcases sole_steps hu h with ⟨h1, _⟩ | ⟨h1, _⟩ | ⟨h1, h2⟩
+  · rw [h1.out] at ho; simp at ho
+  · rw [h1] at ho; simp at ho
+  · rw [h1] at ho; simp at ho
+    exact ⟨ho.symm, h2, hs⟩
+
+/-- the driver's start state for `ts USR1 3` after the shell's first burst is such a state, and its run ends
+    `Trapped` for the choices tried (non-vacuity of `Sole`; the hypothesis is decidable per state) -/
+example :
+    let t := parentTurn (TSys.start { children := [{ state := .running 2 (.exited 3) }] } 0 [6] [(0, 6)])
+    t.out = none ∧ t.sys.pc = .await ∧ t.sys.pending = false ∧ t.sigPending = [] ∧ t.senders = [(0, 6)] ∧
+      (trun 100 [0, 1, 0, 2, 1] t).out = some (.trapped 6) ∧ (trun 100 [1, 1, 1, 1, 1, 1] t).out = some (.trapped 6) := by
+  decide
+
+/-- ★ What the driver computes for a `ts` statement: the executable block scheduler `trun` (a turn of the shell =
+    `parentTurn`, as `run_virtual` lets a process run until its `select` would block) only takes steps of the
+    system — so `wait_trap_result_sound` and `trap_interrupts_wait` hold of its result — and from a `Sole` state
+    its result, if the built-in has ended, is `Trapped(σ)` for every fuel and every choice list. -/
+theorem ts_driver_trapped (fuel : Nat) (choices : List Nat) {t : TSys} {σ : Nat} (h : Sole t σ) :
+    TSteps t (trun fuel choices t) ∧
+    (∀ o, (trun fuel choices t).out = some o → o = .trapped σ ∧ (trun fuel choices t).sys.log = t.sys.log) := by
+  refine ⟨trun_tsteps fuel choices t, fun o ho => ?_⟩
+  have := sole_job_signal_then_exit_is_trapped h (trun_tsteps fuel choices t) ho
+  exact ⟨this.1, this.2.1⟩
+
+end WaitTrap
 
 end YashModel.Proc
